@@ -14,6 +14,7 @@ func init() {
 			"(C16-pure) the focused run evaluates fewer pairs than the full run, so a pair's answer must not depend on which pairs were evaluated before: no function on a query path writes long-lived state outside the reviewed table (the rule of C01-pure); " +
 			"(C16-ia-empty) IngressAnalyzer.IsEmpty() is equivalent to `no services | (no routes & no ingresses)` (formula over its exits): it decides whether a focus on the ingress-controller names something that exists; " +
 			"(C16-absent) a focus that matches nothing appends a warning and returns a nil error. " +
+			"(C16-print) every successful return of the list command follows the print of the report (the rule of C18-print): a shortcut for `no connections` under a focus would drop the exposure section the report also carries. " +
 			"NOT decided: equality of focused and filtered-unfocused output on inputs (the lazily filled exposure data make this a runtime question under --exposure)."
 		rules.FocusFilter(p, r, "C16")
 		rules.GuardedRowConstruction(p, r, "C16-rows")
